@@ -6,31 +6,7 @@ BASE_NOTE = ("Trusted: Lean 4.33.0 kernel (axioms propext, Classical.choice, Quo
              "Lean compiler that executes the proved definitions. The theorem is about a hand-written model; the model is "
              "tied to /repo's working tree by running both on the same inputs on every run.")
 
-CHECKS = {
-    "C12": {
-        "category": "proof",
-        "text": "Lean theorems about Model/Tuple.lean and Model/SegCompress.lean: tuples_to_bytes(bytes_to_tuples(x)) = x for "
-                "ALL byte strings (four symbol ranges, every length and remainder, both overflow profiles), injectivity, byte "
-                "range of the output; compress_reference_segment / compress_segment_configured followed by "
-                "decompress_segment_with_marker, and the stored-part framing (marker byte, raw fallback), return the input for "
-                "either marker choice and every level, for any ZSTD that round-trips and never emits an empty frame. The model "
-                "is executed against the real functions on every string over {0..3} (len<=8), {0..5} (7/8), {0..15} (5/6), "
-                "{0,255}, on random strings to 100 kB, on every 1-/2-byte and many malformed tuple strings, and on reference "
-                "segments steered to the 0.5 repetitiveness threshold; the round trips and ZSTD context-history independence "
-                "are evaluated directly on the real code at levels 1,3,9,13,17,19,22.",
-        "design_ref": "DESIGN.md §5 C12",
-        "technique": "Lean 4 proof over a list model with ZSTD as a parameter + exhaustive/random correspondence",
-    },
-    "C20": {
-        "category": "proof",
-        "text": "Lean theorems about Model/Kmer.lean (UInt64 shifts/masks exactly as kmer.rs) for all k in 1..32 and all "
-                "base sequences; the model is executed against the real Kmer/enumerate_kmers/reverse_complement_kmer on all "
-                "4^k windows (k<=6 quick, 8 thorough), all sequences up to k+3 over {A,C,G,T,N} and random sequences for "
-                "every k incl. 32; the laws are also evaluated directly on the real code against a from-scratch packing.",
-        "design_ref": "DESIGN.md §5 C20",
-        "technique": "Lean 4 proof over a UInt64 model + exhaustive/random correspondence",
-    },
-}
+from props_config import CHECKS  # entries live in tools/props.d/Cxx.py (MANIFEST)
 
 def check(pid, c):
     return {
